@@ -269,7 +269,6 @@ Definition show_outcome (tr : list event) (o : outcome) : string :=
   | OStop v => "STOP " ++ show_value v
   | OExc e => show_exn tr e
   end.
-Definition is_real (s : stream) := match s with Real => true | _ => false end.
 Definition show_snapshot (s : st) : string :=
   "S " ++ show_bool (debug s) ++ show_bool (removed s) ++ show_bool (is_real (s_out s)) ++ show_bool (is_real (s_err s)) ++ show_bool (is_real (s_sock s)).
 Fixpoint show_steps (seen : nat) (l : list (outcome * st)) : list string :=
